@@ -15,7 +15,7 @@
    undeclared type: the checker's output is not closed under the types it mentions, C15).  All term forms (data and codata, labels,
    consumer arguments).  Excluded: calls of `main` (known finding call-to-main), a `main` whose body is
    not of type i64 (former finding main-non-integer-result: the exit continuation of compile_main is typed with the
-   body's annotation; since fix <commit12> of /repo the checker rejects such a main, so for CHECKED programs this
+   body's annotation; since fix 5b8c76f of /repo the checker rejects such a main, so for CHECKED programs this
    clause is implied: Proof/Fun2CoreTyChecked.v prog_tyguard_src).
    The capture guard is the negation of [shadowing_risk] (Model/Fun2Core.v), the syntactic detector of
    the known finding capture-under-binder that modelrun wt-stages uses for its verdict: the translation
@@ -251,7 +251,7 @@ Definition prog_tyguard (p : fcprog) : bool :=
   decls_tyguard p && forallb (def_tyguard p (cdata_of p) (ccodata_of p)) (fcpdefs p).
 
 (* ---------- the witness of the former finding main-non-integer-result (corpus/fun/c12_main_nonint.sc; the source is
-   rejected by the checker since fix <commit12>, the annotated form is what the checker before the fix produced):
+   rejected by the checker since fix 5b8c76f, the annotated form is what the checker before the fix produced):
    `data Bar { B }  def main(): Bar { B }` as parsed and as the type checker annotates it (modelrun
    wt-stages compares the latter with the real CheckedProgram of that file on every run) ---------- *)
 Definition main_nonint_source : fprog :=
